@@ -1714,6 +1714,13 @@ def check_C13(A, R, tier):
     for f, tos in sig_writes(A, K["success"]).items():
         ok0 |= tos
     rule_offer_guard(A, R, "R13.1")
+    # ... 'without failure' is the engine's own per-state predicate: it must mean what the handlers do (an Ephemeral that ran
+    # fine and only had its cleanup waived is not a failed downstream)
+    from rules_protocol import rule_failed_predicate_agrees
+    rule_failed_predicate_agrees(A, R, "R13.1")
+    # ... and 'all direct downstreams' are the ones the driver declared: no declared dependency is dropped
+    from rules_protocol import rule_setup_faithful
+    rule_setup_faithful(A, R, "R13.1", parts=("depends_on",))
     # R13.1b / R13.2 typestate of the offer --------------------------------------------------------
     after = set()
     n = 0
